@@ -67,7 +67,11 @@ def grammar(repo: Repo, chk: Check, f: Func) -> t.List[Run]:
                 if isinstance(r, tuple) and r[0] == "const" and isinstance(r[2], ast.Call) and repo.dotted(r[2].func, r[1]) == "re.compile":
                     comp.append(r[2])
     if len(comp) != 1:
-        raise AnalysisError("sid_to_bytes: the grammar is no longer a single regular expression")
+        # the grammar anchor is gone: whatever replaces it (str.isdigit(), int() on split parts ...) is not the MS-DTYP
+        # grammar - str.isdigit() and int() accept every Unicode decimal digit, int() also signs, blanks and underscores
+        ints = [n for n in body_nodes(f.node) if isinstance(n, ast.Call) and unparse(n.func) == "int"]
+        chk.ob("O1", Site.of(f, ints[0] if ints else None, None if ints else "SID grammar"), False, f"sid_to_bytes no longer matches the SID against a regular expression ({len(comp)} patterns found): components are converted with int() without the grammar 'S-<digit>-<digits>(-<digits>){{1,15}}' (ASCII digits only, anchored) having matched")
+        return []
     c = comp[0]
     okp, pattern = repo.try_fold(c.args[0], f.mod)
     if not okp or not isinstance(pattern, str):
@@ -153,7 +157,7 @@ def grammar(repo: Repo, chk: Check, f: Func) -> t.List[Run]:
 
     ints = [n for n in body_nodes(f.node) if isinstance(n, ast.Call) and unparse(n.func) == "int"]
     for n in ints:
-        okg = any(pol and _is_match_of(repo, f, e) for e, pol in atoms_at(f, n))
+        okg = any(_matched(repo, f, e, pol) for e, pol in atoms_at(f, n))
         chk.ob("O1", Site.of(f, n), okg, "conversion only after the grammar matched" if okg else "int() is applied to a component without the grammar having matched on this path")
     return runs
 
@@ -164,6 +168,16 @@ def _is_match_of(repo: Repo, f: Func, e: ast.expr) -> bool:
     if isinstance(e, ast.Call) and isinstance(e.func, ast.Attribute) and e.func.attr in ("match", "fullmatch") and e.args:
         return unparse(e.args[-1]) == f.params[0]
     return False
+
+
+def _matched(repo: Repo, f: Func, e: ast.expr, pol: bool) -> bool:
+    """The condition (e is pol) says that the SID pattern matched: `m`, `not m` false, `m is None` false, `m is not None`."""
+    if isinstance(e, ast.Compare) and len(e.ops) == 1 and isinstance(e.comparators[0], ast.Constant) and e.comparators[0].value is None:
+        if isinstance(e.ops[0], (ast.Is, ast.Eq)):
+            return (not pol) and _is_match_of(repo, f, e.left)
+        if isinstance(e.ops[0], (ast.IsNot, ast.NotEq)):
+            return pol and _is_match_of(repo, f, e.left)
+    return pol and _is_match_of(repo, f, e)
 
 
 class SidModel:
